@@ -77,6 +77,16 @@ theorem handoff_close_once (cfg : Cfg) (raw : List (Notif α)) (sched : List Tid
     s.closes ≤ 1 ∧ (0 < s.stops → s.closes = 1 ∧ s.closed = true) :=
   ⟨closes_le_one (inv_run cfg raw sched), closes_eq_one_of_stops (inv_run cfg raw sched)⟩
 
+/-- ObserveOn / SubscribeOn release their goroutine even when an upstream teardown panics (repo fix
+    694a874, `defer stop()`): two steps after `Unsubscribe()` passed its CAS the hand-off channel is
+    closed exactly once, so the consumer loop `range ch` ends -/
+theorem detach_teardown_releases (cap : Nat) (hot panics : Bool) (raw : List (Notif α)) (sched : List Tid) :
+    let cfg : Cfg := { cap := cap, hot := hot, upPanic := panics }
+    let s := run cfg (init cfg raw) sched
+    s.tpc = .td1 → ∃ s1 s2, step cfg s .ctl = some s1 ∧ step cfg s1 .ctl = some s2 ∧ s2.tpc = .done ∧
+      s2.closed = true ∧ s2.closes = 1 ∧ (panics = true → hot = true → s.upOpen = true → s2.raised = true) :=
+  fun ht => teardown_releases (inv_run _ raw sched) ht
+
 /-- Collect over ObserveOn / SubscribeOn equals Collect over the source -/
 theorem collect_through_detach (cap : Nat) (hot : Bool) (raw : List (Notif α)) (sched : List Tid) :
     let cfg : Cfg := { cap := cap, hot := hot }
@@ -111,5 +121,6 @@ end Ro.C08
 #print axioms Ro.C08.handoff_bound
 #print axioms Ro.C08.handoff_bound_unsub
 #print axioms Ro.C08.handoff_close_once
+#print axioms Ro.C08.detach_teardown_releases
 #print axioms Ro.C08.collect_through_detach
 #print axioms Ro.C08.handoff_shapes
